@@ -169,7 +169,10 @@ def literal(ptype, cls):
         return {"empty": '""', "ascii": '"plain text"', "esc_quote": r'"a \"quoted\" word"', "dbl_quote": '"a ""doubled"" quote"',
                 "esc_apos": r'"it\'s"', "esc_backslash": r'"back\\slash"', "esc_n": r'"line\nbreak"', "esc_r": r'"carriage\rreturn"',
                 "esc_t": r'"tab\tstop"', "backslash_last": r'"ends with backslash\\"', "nonbmp": '"smile \U0001F600 face"',
-                "latin": '"caf\u00e9 \u20ac"', "slashes": '"a // b /* c */ /begin"', "apos_raw": '"it\'s raw"', "unknown_escape": r'"a\qb"'}[cls]
+                "latin": '"caf\u00e9 \u20ac"', "slashes": '"a // b /* c */ /begin"', "apos_raw": '"it\'s raw"', "unknown_escape": r'"a\qb"',
+                # escapes together with characters outside ASCII; Windows paths (an escaped backslash in front of n, r, t)
+                "esc_latin": '"caf\u00e9 \\"quoted\\" \\\\ \u20ac"', "esc_nonbmp": '"\\"\U0001F600\\" \u00e4"',
+                "path": r'"C:\\temp\\new_file.hex"', "esc_seq_after_backslash": r'"\\rpm \\n \\t"'}[cls]
     return {"a": "a", "dotted": "a.b.c", "underscore": "_x1", "len1024": "a" * 1024, "len1025": "a" * 1025, "digitfirst": "9abc",
             "brackets": "arr[3].x"}[cls]
 
@@ -250,6 +253,9 @@ PAYLOADS = {
     "blk_comment": [["/begin", "UNKNOWN_X", "/* a block comment */", "1"], ["  ", "// a line comment"], ["/end", "UNKNOWN_X"]],
     "kw_comment": [["UNKNOWN_X", "1", "/* a block comment */", "2"]],
     "blk_unbalanced_inner_kw": [["/begin", "UNKNOWN_X", "KEYWORD_INSIDE", "5", "UNKNOWN_X_NOT_END", "/end", "UNKNOWN_X"]],
+    # an unknown keyword whose arguments contain nested blocks (the known element behind it must survive)
+    "kw_with_block": [["UNKNOWN_X", "1", "/begin", "INNER_Y", "x", "/end", "INNER_Y"]],
+    "kw_with_two_blocks": [["UNKNOWN_X", "/begin", "INNER_Y", "/end", "INNER_Y", "2", "/begin", "INNER_Z", "/begin", "INNER_W", "/end", "INNER_W", "/end", "INNER_Z"]],
 }
 
 
